@@ -594,7 +594,7 @@ def x_did_keeper_NewKeeper : List String := ["return _", "kv cdc=cdc", "kv store
 def x_did_keeper_NewMsgServerImpl : List String := ["return _", "kv Keeper=keeper"]
 
 /-- x/did/keeper.VerifyDIDOwnership -/
-def x_did_keeper_VerifyDIDOwnership : List String := ["assign verificationMethod,ok := doc.VerificationMethodFrom(doc.Authentications, verificationMethodID)", "call doc.VerificationMethodFrom(doc.Authentications, verificationMethodID)", "if !ok", "return 0,_", "lit 0", "call errors.Wrapf(types.ErrVerificationMethodIDNotFound, _, verificationMethodID)", "if verificationMethod.Type != types.ES256K_2019 && verificationMethod.Type != types.ES256K_2018", "return 0,_", "lit 0", "call errors.Wrapf(types.ErrVerificationMethodKeyTypeNotImplemented, _, verificationMethod.Type)", "assign pubKeySecp256k1,err := secp256k1util.PubKeyFromBase58(verificationMethod.PublicKeyBase58)", "call secp256k1util.PubKeyFromBase58(verificationMethod.PublicKeyBase58)", "if err != nil", "return 0,_", "lit 0", "call errors.Wrapf(types.ErrInvalidSecp256k1PublicKey, _, verificationMethod.PublicKeyBase58)", "assign newSeq,ok := types.Verify(sig, signData, seq, pubKeySecp256k1)", "call types.Verify(sig, signData, seq, pubKeySecp256k1)", "if !ok", "return 0,_", "lit 0", "return newSeq,nil"]
+def x_did_keeper_VerifyDIDOwnership : List String := ["assign verificationMethod,ok := doc.VerificationMethodFrom(doc.Authentications, verificationMethodID)", "call doc.VerificationMethodFrom(doc.Authentications, verificationMethodID)", "if !ok", "return 0,_", "lit 0", "call errors.Wrapf(types.ErrVerificationMethodIDNotFound, _, verificationMethodID)", "if verificationMethod.Type != types.ES256K_2019 && verificationMethod.Type != types.ES256K_2018", "return 0,_", "lit 0", "call errors.Wrapf(types.ErrVerificationMethodKeyTypeNotImplemented, _, verificationMethod.Type)", "assign pubKeySecp256k1,err := secp256k1util.PubKeyFromBase58(verificationMethod.PublicKeyBase58)", "call secp256k1util.PubKeyFromBase58(verificationMethod.PublicKeyBase58)", "if err != nil", "return 0,_", "lit 0", "call errors.Wrapf(types.ErrInvalidSecp256k1PublicKey, _, verificationMethod.PublicKeyBase58)", "assign newSeq,ok := types.Verify(sig, signData, seq, pubKeySecp256k1)", "call types.Verify(sig, signData, seq, pubKeySecp256k1)", "if !ok", "return 0,_", "lit 0", "if newSeq == types.InitialSequence", "return 0,_", "lit 0", "call errors.Wrapf(types.ErrInvalidDIDDocumentWithSeq, _, seq)", "return newSeq,nil"]
 
 /-- x/did/keeper.msgServer.CreateDID -/
 def x_did_keeper_msgServer_CreateDID : List String := ["assign keeper := m.Keeper", "assign ctx := sdk.UnwrapSDKContext(goCtx)", "call sdk.UnwrapSDKContext(goCtx)", "assign cur := keeper.GetDIDDocument(ctx, msg.Did)", "call keeper.GetDIDDocument(ctx, msg.Did)", "if !cur.Empty()", "call cur.Empty()", "if cur.Deactivated()", "call cur.Deactivated()", "return nil,_", "call errors.Wrapf(types.ErrDIDDeactivated, _, msg.Did)", "return nil,_", "call errors.Wrapf(types.ErrDIDExists, _, msg.Did)", "assign seq := types.InitialSequence", "assign _,err := _", "call VerifyDIDOwnership(msg.Document, seq, msg.Document, msg.VerificationMethodId, msg.Signature)", "if err != nil", "return nil,err", "assign docWithSeq := types.NewDIDDocumentWithSeq(msg.Document, uint64(seq))", "call types.NewDIDDocumentWithSeq(msg.Document, uint64(seq))", "call uint64(seq)", "call keeper.SetDIDDocument(ctx, msg.Did, docWithSeq)", "return _,nil"]
